@@ -87,6 +87,13 @@ Theorem C07_spec_ok_reads : forall c o, spec_ok c o = true ->
 Proof. exact spec_ok_reads. Qed.
 Print Assumptions C07_spec_ok_reads.
 
+(* != is checked on every pair of the observed matrices: it is the negation of == *)
+Theorem C07_spec_ok_ne_reads : forall c o, spec_ok c o = true ->
+  forall i j, (i < length (c_terms c))%nat -> (j < length (c_terms c))%nat ->
+    nthd (o_ne o) i j false = negb (nthd (o_eq o) i j false).
+Proof. exact spec_ok_ne_reads. Qed.
+Print Assumptions C07_spec_ok_ne_reads.
+
 (* inside one datatype family (same datatype IRI; plain and language-tagged literals together; no private empty tag) the observed <
    must be irreflexive, asymmetric and transitive - what sorted() needs to be reproducible *)
 Theorem C07_spec_ok_family_reads : forall c o, spec_ok c o = true ->
@@ -112,6 +119,11 @@ Theorem C07_family_order_strict :
   /\ (forall a b c, mlt a b = true -> mlt b c = true -> mlt a c = true).
 Proof. exact (conj mlt_irrefl (conj mlt_asym mlt_trans)). Qed.
 Print Assumptions C07_family_order_strict.
+
+(* the tie for the suite "pickler": a sequence of well-formed terms through one NodePickler, each coming back as itself *)
+Theorem C07_pickler_spec_ok_model : forall ts, forallb wf_term ts = true -> pspec_ok ts (pmodel_obs ts) = true.
+Proof. exact pspec_ok_model. Qed.
+Print Assumptions C07_pickler_spec_ok_model.
 
 (* n3 text read back by from_n3, for EVERY well-formed term and every string (all escapes, both quoting forms, all of
    Unicode): an IRI, blank node or variable comes back as itself, a literal as the literal the default constructor
